@@ -1,15 +1,16 @@
 CFG = {
     "id": "C12",
     "level_text": "Proof for the model, the reference semantics and the interval checker, for all operation lists and all instants: "
-                  "the Gallina model of app/bcache (member map + deadline index, explicit clock, repairs D3/D24) returns what the "
+                  "the Gallina model of app/bcache (member map + deadline index, explicit clock, repairs D3/D24/D32) returns what the "
                   "index-free reference map returns (C12_refines) and keeps 'index = exactly the timed keys' (C12_index); Get returns the "
                   "entry last stored and not deleted/cleared since, never past its deadline and always while now + g < deadline "
                   "(C12_get_live, g = float64 score granularity, 256 ns today); untimed entries survive every sweep and a sweep removes "
                   "exactly the timed entries with score in [0, fl now] (C12_untimed_survive, C12_sweep_exact, C12_count); SetIfAbsent / Replace "
                   "conditions (C12_setifabsent, C12_replace); Export then Clear+Load reproduces the non-expired entries with deadlines and a "
-                  "rebuilt index (C12_roundtrip); the interval checker that judges recorded traces never rejects observations the reference "
+                  "rebuilt index (C12_roundtrip); Load onto an ARBITRARY cache stores exactly the data entries not expired at the load instant, "
+                  "leaves every other key unchanged and keeps the index invariant (C12_load; D32 repaired by notes/fixes/0041); the interval checker that judges recorded traces never rejects observations the reference "
                   "semantics can produce for some instants inside the recorded clock brackets (C12_admissible_complete, "
-                  "C12_kind2_iff_inadmissible). PARTIAL for wall-clock behaviour: the real time.Now readings, ticker latency and scheduling "
+                  "C12_kind2_iff_inadmissible; Load reading the clock once per entry is covered by C12_load_multi_instant). PARTIAL for wall-clock behaviour: the real time.Now readings, ticker latency and scheduling "
                   "are sampled, not proved: every run executes ~2400 short traces of the real package (each call bracketed by clock readings, "
                   "member map and zset index dumped after it and compared with the model run inside Coq) and 32 real-ticker runs "
                   "(10 ms sentinel, Count after an allowance of 10 intervals).",
@@ -21,12 +22,13 @@ CFG = {
                   "any call bracket is counted by the harness (notes), not inside Coq. (2) 'within a few intervals' is only exercised by the "
                   "real-ticker runs. (3) In the window deadline-g <= now <= deadline the repaired code may already have swept an entry (the sweeper "
                   "compares float64-rounded scores, Get compares integers): the theorems state exactly that window instead of hiding it. "
-                  "(4) Load over a NON-empty cache (outside the property) can leave a stale deadline in the index (setDeadline has no Remove); "
-                  "the model mirrors it, C12_roundtrip/C12_index cover Clear+Load only.",
+                  "(4) A Load entry whose deadline falls inside the Load's own clock bracket, over a key that already has an abstract entry, makes "
+                  "that key 'Wild' in the interval checker (every observation on it is accepted until the next definite store/hit/export): "
+                  "sound for no-false-alarm, blind for that key in that rare window; decided_b rejects such traces as undecided.",
     "harness": "c12",
     "theorems": [("C12.Props", [
         "C12_refines", "C12_index", "C12_get_live_generic", "C12_get_live", "C12_untimed_survive", "C12_sweep_exact",
-        "C12_setifabsent", "C12_replace", "C12_count", "C12_roundtrip", "C12_f64r_round", "C12_admissible_complete",
+        "C12_setifabsent", "C12_replace", "C12_count", "C12_roundtrip", "C12_load", "C12_load_multi_instant", "C12_f64r_round", "C12_admissible_complete",
         "C12_kind2_iff_inadmissible", "C12_decided_sound_partial"])],
     "trusted": [
         "every call of one goroutine reads the clock inside the two wall-clock readings recorded around it (traces whose wall clock "
@@ -40,11 +42,12 @@ CFG = {
         "float64(int64) score conversion as f64r g = nearest multiple of g, ties to even (g = 256 for 2^60 <= ns < 2^61; the harness "
         "asserts the range and the index dump is compared with f64r on every step)",
         "time.Now: one instant per call as an explicit input (Replace and Load read the clock more than once; one instant suffices, see Model.v; "
-        "a Load whose entries straddle its own bracket inconsistently is dropped and counted)",
+        "for the model run at one witness instant a Load whose entries straddle its own bracket inconsistently is dropped and counted; "
+        "the interval checker itself handles one instant per entry)",
         "sentinel ticker: sweeps are explicit trace steps through VerifSweep; the real ticker is only sampled",
         "encoding/json as a codec of map[K]Iterator (Export output parsed by the harness)",
     ],
-    "assumptions": ["UnixNano in [2^60, 2^61) (years 2006-2043)", "restore data: unique keys, deadlines >= 0 (op_wf)",
+    "assumptions": ["UnixNano in [2^60, 2^61) (years 2006-2043)", "restore/load data: unique keys, deadlines >= 0 (op_wf; not needed by C12_admissible_complete)",
                     "positive, non-decreasing instants (times_ok) for the declarative theorems"],
     "harness_timeout": 600,
 }
